@@ -74,6 +74,11 @@ Temporal ==
     E("dt", "berlin", <<14, 2016, 1, 13, 7, 51, 42, 12345, 0, 3600, C("Berlin")>>, TRUE),
     E("dt", "ny_dst", <<14, 2021, 7, 4, 12, 0, 0, 0, 1, 14400, C("New_York")>>, FALSE),
     E("dt", "kolkata", <<14, 2000, 2, 29, 23, 59, 59, 999999, 0, 19800, C("Kolkata")>>, FALSE),
+    \* the hour repeated when daylight saving ends (first occurrence: the offset, not the wall clock, tells them apart)
+    E("dt", "ny_fold_dst", <<14, 2021, 11, 7, 1, 30, 0, 0, 1, 14400, C("New_York")>>, FALSE),
+    E("dt", "ny_fold_std", <<14, 2021, 11, 7, 1, 30, 0, 0, 1, 18000, C("New_York")>>, FALSE),
+    E("dt", "berlin_fold_dst", <<14, 2021, 10, 31, 2, 30, 0, 0, 0, 7200, C("Berlin")>>, FALSE),
+    E("dt", "london_winter", <<14, 2021, 12, 1, 12, 0, 0, 0, 0, 0, C("London")>>, FALSE),
     E("coord", "zero", <<15, 0, 0, 0, 0>>, FALSE), E("coord", "richmond", <<15, 0, 37545000, 1, 77449000>>, TRUE),
     E("coord", "max", <<15, 0, 90000000, 0, 180000000>>, FALSE), E("coord", "min", <<15, 1, 90000000, 1, 180000000>>, FALSE),
     E("coord", "tiny", <<15, 0, 1, 1, 1>>, FALSE), E("coord", "ints", <<15, 1, 27000000, 0, 153000000>>, FALSE) }
